@@ -5,6 +5,7 @@ from __future__ import annotations
 import ast
 
 from sa.astutil import (
+    same_node,
     loop_exits,
     arg_or_kw,
     call_name,
@@ -235,7 +236,15 @@ def r4_accumulation_and_pairing(ctx):
     vid = dotted(tg.elts[0])
     vproc, vtgt = (dotted(x) for x in tg.elts[1].elts)
     st = enclosing_stmt(c)
-    ok = isinstance(st, ast.AugAssign) and isinstance(st.op, ast.Add) and st.value is c
+    if not (isinstance(st, ast.AugAssign) and st.value is c):
+        # the pair's fitness may pass through a named intermediate before it is added
+        for cand in walk_ordered(lp):
+            if isinstance(cand, ast.AugAssign) and isinstance(cand.op, ast.Add):
+                ev = expand(lp, cand.value)
+                if same_node(ev, c):
+                    st = cand
+                    break
+    ok = isinstance(st, ast.AugAssign) and isinstance(st.op, ast.Add) and (st.value is c or same_node(expand(lp, st.value), c))
     acc = dotted(st.target) if ok else None
     ctx.check(ok, f.qual + "#accumulate", f"{acc} += _calculate_fitness(...)" if ok else f"fitness of a pair is not added to the total: {norm(st)[:70]}", where=f, node=st)
     if ok:
